@@ -19,6 +19,8 @@ DIMS = {
     "names": [True, False],
     "zero_width": [False, True],
     "empty_middle": [False, True],
+    # seven colour glyphs, the last two sharing a shape: an OT-SVG input then holds a document for glyph ids 7..8
+    "many": [False, True],
 }
 K = {"quick": 1, "thorough": 2}
 FG = (0.2, 0.9, 0.4, 1.0)
@@ -30,6 +32,8 @@ def relevant(dev):
     if any(k in dev for k in ("space", "layout", "palettes", "names", "zero_width")) and not third:
         return False
     if "colr_version" in dev and "svg" not in kind:
+        return False
+    if "many" in dev and third:
         return False
     if "empty_middle" in dev and third:
         return False
@@ -100,7 +104,7 @@ table GDEF { GlyphClassDef [A B L T], , [mark], ; } GDEF;""")
     return b.getvalue()
 
 
-def nano_font(kind, solid_only=False, empty_middle=False):
+def nano_font(kind, solid_only=False, empty_middle=False, many=False):
     from vmc.core import lattice as L
     from vmc.drive import inproc
     from vmc.gen import scenes
@@ -120,6 +124,17 @@ def nano_font(kind, solid_only=False, empty_middle=False):
 
         g3, _ = scenes.mk(L.full(scenes.DIMS, {"nglyphs": 3, "place": "r30"}))
         glyphs = [g3[0], Glyph(g3[1].cps, g3[1].vb, []), g3[2]]
+    if many:
+        from vmc.oracles import aff
+        from vmc.oracles.scene import Glyph, Shape, Solid, OUT, place
+
+        cols = ["red", "blue", "green", "orange", "purple"]
+        glyphs = [Glyph((0xE000 + i,), (0, 0, 100, 100), [Shape(place(OUT[o], aff.tr(10 + 4 * i, 12 + 3 * i)), Solid(cols[i]), label=o)])
+                  for i, o in enumerate(("tri", "quad", "blob", "oval", "ring"))]
+        glyphs.append(Glyph((0xE005,), (0, 0, 100, 100), [Shape(place(OUT["ell"], aff.tr(5, 8)), Solid("#FE8801"), label="ell"),
+                                                           Shape("M60,55 L92,58 L88,90 L70,84 Z", Solid("#222222"), label="p1")]))
+        glyphs.append(Glyph((0xE006,), (0, 0, 100, 100), [Shape(place(OUT["ell"], aff.tr(40, 30)), Solid("#663301"), label="ell-copy"),
+                                                           Shape("M4,56 L30,52 L36,80 L18,94 L6,78 Z", Solid("#222222"), label="p2")]))
     over["color_format"] = fmt
     raw = fmt.startswith("untouched")
     cfg, font, data = inproc.build_direct([(g.cps, sc.raw_svg(g) if raw else g.svg()) for g in glyphs], over)
@@ -202,7 +217,7 @@ def execute(dev):
     inproc.init()
     dev = {k: v for k, v in dev.items() if k != "_"}
     a = lattice.full(DIMS, dev)
-    data = third_party(a) if a["kind"].startswith("third") else nano_font(a["kind"], solid_only="svg" in a["kind"] and a["colr_version"] == 0, empty_middle=a["empty_middle"])
+    data = third_party(a) if a["kind"].startswith("third") else nano_font(a["kind"], solid_only="svg" in a["kind"] and a["colr_version"] == 0, empty_middle=a["empty_middle"], many=a["many"])
     w = cli.mkscratch("c12")
     try:
         r, out = run_mc(w, data, a, True)
@@ -338,14 +353,15 @@ def run(report, tier, only=None):
         extra = [{"kind": "nano_picosvg", "colr_version": 0}, {"kind": "nano_untouchedsvg", "colr_version": 0},
                  {"kind": "nano_colr1", "bitmaps": True}, {"kind": "nano_picosvg", "bitmaps": True}, {"kind": "nano_colr1", "keep": False},
                  {"kind": "nano_picosvg", "bitmaps": True, "empty_middle": True}, {"kind": "nano_colr1", "bitmaps": True, "empty_middle": True},
-                 {"bitmaps": True, "palettes": 2}, {"kind": "nano_untouchedsvg", "empty_middle": True}]
+                 {"bitmaps": True, "palettes": 2}, {"kind": "nano_untouchedsvg", "empty_middle": True},
+                 {"kind": "nano_picosvg", "many": True}, {"kind": "nano_colr1", "many": True}, {"kind": "nano_untouchedsvg", "many": True}]
         lattice.explore(report, DIMS, k, execute, relevant=relevant, timeout=1200, extra_states=extra)
     finally:
         pool.nproc = old
     report.extra["deviation_bound"] = k
     report.rule = (
         "E1 over input kind (nanoemoji COLRv1/COLRv0/picosvg/untouchedsvg, third-party COLRv1/COLRv0 built with fontTools) x --bitmaps x "
-        "--colr_version x --keep_glyph_names x space glyph x kerning+mark lookups x 1/2 palettes x glyph names x zero-width colour glyph, "
+        "--colr_version x --keep_glyph_names x space glyph x kerning+mark lookups x 1/2 palettes x glyph names x zero-width colour glyph x seven colour glyphs with a shared shape (an OT-SVG document for glyph ids 7..8), "
         "<= %d deviations, each through the real `maximum_color` command; name-keyed facts of input and output (cmap, advances, outlines, "
         "GSUB/GPOS/GDEF, original COLR), tables added, pictures of all colour tables compared point-wise for every reachable colour glyph "
         "(CBDT through its metrics), O-STRUCT, stripped-names run equal except post; distinct = input kind x tables" % k
